@@ -30,6 +30,8 @@ type Walk struct {
 	Promise bool   `json:"promise"`
 	Forward bool   `json:"forward"`
 	N       int    `json:"n"`
+	World   int    `json:"world"`
+	Field   string `json:"field,omitempty"` // fwdOnly (forward walks) | bwdOnly (backward walks) | ""
 }
 
 type harness struct {
@@ -221,6 +223,11 @@ func servedCanon(r Req, o servedObs) (canon string, problem string) {
 		if e.Cursor != emit(c) {
 			return "", fmt.Sprintf("edge %d carries cursor %q, its cursor serialises to %q", c, e.Cursor, emit(c))
 		}
+		if !r.NodeOnly {
+			if e.Label == nil || *e.Label != labelOf(c) || e.Weight == nil || *e.Weight != weightOf(c) || e.Even == nil || *e.Even != evenOf(c) {
+				return "", fmt.Sprintf("edge %d carries the edge fields label=%s weight=%s even=%s, its own are %q %d %v", c, strp(e.Label), optStr(e.Weight), boolp(e.Even), labelOf(c), weightOf(c), evenOf(c))
+			}
+		}
 		es = append(es, c)
 	}
 	pi := hx.A("none")
@@ -250,6 +257,20 @@ func servedCanon(r Req, o servedObs) (canon string, problem string) {
 		calls = append(calls, hx.N("w", optI(c.After), optI(c.Before), hx.I(int64(c.Limit))))
 	}
 	return hx.N("ok", intsS(es), pi, optI(o.TC), hx.N("calls", calls...)).String(), ""
+}
+
+func strp(p *string) string {
+	if p == nil {
+		return "none"
+	}
+	return fmt.Sprintf("%q", *p)
+}
+
+func boolp(p *bool) string {
+	if p == nil {
+		return "none"
+	}
+	return fmt.Sprint(*p)
 }
 
 // matchRef: does the response equal what RelayRef selects (edges, cursors, page info, total count)?
@@ -322,8 +343,9 @@ func servedOracle(E []int, r Req, o servedObs) (what, kind string) {
 	}
 	isErr := strings.HasPrefix(canon, "(error")
 	// count errors: required by the property statement
-	probe := relayRef(E, pos{}, pos{}, r.First, r.Last, true)
-	if probe.Err {
+	effFirst, effLast := r.effective()
+	probe := relayRef(E, pos{}, pos{}, effFirst, effLast, true)
+	if probe.Err || r.validationRejects() {
 		if !isErr {
 			return "a negative count, a missing count or first and last together did not yield an error: " + canon, "property"
 		}
@@ -360,7 +382,7 @@ func servedOracle(E []int, r Req, o servedObs) (what, kind string) {
 	first := ""
 	for _, a := range as {
 		for _, b := range bs {
-			w := matchRef(E, r, o, relayRef(E, a, b, r.First, r.Last, true))
+			w := matchRef(E, r, o, relayRef(E, a, b, effFirst, effLast, true))
 			if w == "" {
 				return "", ""
 			}
@@ -396,7 +418,9 @@ func (h *harness) evalServedObs(c Case) (o servedObs, what, kind string) {
 	if w, k := servedOracle(c.E, r, o); w != "" {
 		return o, w, k
 	}
-	if h.model == nil {
+	if h.model == nil || r.validationRejects() {
+		// a count that the schema itself requires is rejected by validation, before the resolver the
+		// model describes; the oracle above has demanded the error
 		return o, "", ""
 	}
 	aS, p1 := curArgS(r.After)
@@ -412,7 +436,13 @@ func (h *harness) evalServedObs(c Case) (o servedObs, what, kind string) {
 	for _, gc := range o.WinCalls {
 		tbl = append(tbl, hx.L(hx.L(optI(gc.After), optI(gc.Before), hx.I(int64(gc.Limit))), intsS(gc.Reply)))
 	}
-	line := hx.N("conn", hx.A(r.Mode), intsS(c.E), tc, hx.B(r.SelPI), hx.B(r.SelTC), optI(r.First), optI(r.Last), aS, bS, hx.N("table", tbl...)).String()
+	mode := r.Mode
+	if r.Field != "" {
+		mode = "all" // the direction-only and customised connections are ResolveAllEdges connections
+		tc = hx.A("none")
+	}
+	ef, el := r.effective()
+	line := hx.N("conn", hx.A(mode), intsS(c.E), tc, hx.B(r.SelPI), hx.B(r.SelTC), optI(ef), optI(el), aS, bS, hx.N("table", tbl...)).String()
 	rep, err := h.model.Ask(line)
 	if err != nil {
 		return o, "model driver failed: " + err.Error(), "correspondence"
@@ -433,7 +463,11 @@ func (h *harness) countServed(c Case, o servedObs, canon string) {
 	if r.Promise {
 		m = r.Mode + "/promise"
 	}
+	if r.Field != "" {
+		m = r.Field
+	}
 	h.run.Count("mode:" + m)
+	h.run.Count("api:" + worldNames[r.World%numWorlds])
 	if r.NilEmpty {
 		h.run.Count("application-empty-result-as:typed-nil")
 	} else {
@@ -511,7 +545,7 @@ func (h *harness) evalWalk(c Case) (what, kind string) {
 			return fmt.Sprintf("the walk does not terminate: %d pages over %d edges", pages, len(c.E)), "property"
 		}
 		n := wk.N
-		r := Req{Mode: wk.Mode, Promise: wk.Promise, SelPI: true, SelTC: pages%2 == 0, NilEmpty: (c.PolicySeed>>1)&1 == 1}
+		r := Req{Mode: wk.Mode, Promise: wk.Promise, SelPI: true, SelTC: pages%2 == 0, NilEmpty: (c.PolicySeed>>1)&1 == 1, World: wk.World, Field: wk.Field}
 		if wk.Forward {
 			r.First, r.After = &n, cur
 		} else {
@@ -733,8 +767,9 @@ func nontrivial(c Case) bool {
 		if r.Before != nil {
 			b = pos{true, r.Before.C}
 		}
-		ref := relayRef(c.E, a, b, r.First, r.Last, true)
-		return !ref.Err && len(ref.Edges) > 0 && len(ref.Edges) < len(c.E)
+		ef, el := r.effective()
+		ref := relayRef(c.E, a, b, ef, el, true)
+		return !ref.Err && !r.validationRejects() && len(ref.Edges) > 0 && len(ref.Edges) < len(c.E)
 	case "walk":
 		return len(c.E) > c.Walk.N
 	}
